@@ -297,6 +297,11 @@ func parseVpsSpsPpsAnnexbFromRecord(payload []byte) (vps, sps, pps []byte, err e
 }
 
 func parseVpsSpsPpsFromRecord(payload []byte) (vps, sps, pps []byte, err error) {
+	// 5 bytes of rtmp header, 22 bytes of record, numOfArrays and the first array header
+	if len(payload) < 33 {
+		return nil, nil, nil, nazaerrors.Wrap(base.ErrHevc)
+	}
+
 	index := 27
 	if numOfArrays := payload[index]; numOfArrays != 3 && numOfArrays != 4 {
 		return nil, nil, nil, nazaerrors.Wrap(base.ErrHevc)
